@@ -8,16 +8,20 @@
  G  behaviours of the model (exhaustive tiny, sampled small, -simulate large, with path-condition choices,
     widening, threshold) are built on real mappers; merge() is called; what m1, m2 and mm hold for every
     register, every memory byte and every item key is serialised.
- T  behaviours drawn by the seeded rng beyond the model: vector-valued pointers, more registers and flags.
+ T  behaviours drawn by the seeded rng beyond the model: vector-valued pointers (also at non-zero displacements),
+    more registers and flags, branches that move the pointer register, chains of two merges (the merge of two
+    branches merged again with a third one, with widening), and amoco's own evaluation of the merged map on
+    concrete states (c >> mm, also on states where alternatives coincide).
     specs/MergeTrace.tla decides: candidates of mi included in the candidates of mm (or mm unknown) in every
     valuation satisfying branch i's conditions; untouched locations keep their value; item keys of mm come from
-    m1/m2; each item value of mi is listed among mm's alternatives up to meaning.
+    m1/m2; each item value of mi is listed among mm's alternatives up to meaning; the candidates amoco's
+    evaluation of mm returns on a concrete state contain what mi gives there (EvalCovers).
 """
 import sys
 
 from harness import framework, tlc, c19, c19run
 
-QUIRKS = ("SkipWiderSecond", "StaleItems", "TopReadAsBottom")
+QUIRKS = ("SkipWiderSecond", "StaleItems", "TopReadAsBottom")     # the model's named deviations (repaired in /repo since)
 
 
 def run(ctx):
@@ -45,9 +49,9 @@ def run(ctx):
     mcs = ["MergeMC_quick.cfg", "MergeMC_quick2.cfg"] if quick else ["MergeMC_quick2.cfg", "MergeMC_thorough.cfg"]
     rej = ["MergeMC_kf_%s.cfg" % q for q in QUIRKS]
     if quick:
-        gens = [("MergeGen_tiny.cfg", "tiny", None, None, 120), ("MergeGen_small.cfg", "small", "num=40", 5, 120),
-                ("MergeSim.cfg", "sim", "num=40", 9, 160)]
-        nrandom = 200
+        gens = [("MergeGen_tiny.cfg", "tiny", None, None, 50), ("MergeGen_small.cfg", "small", "num=40", 5, 50),
+                ("MergeSim.cfg", "sim", "num=40", 9, 80)]
+        nrandom = 208
     else:
         gens = [("MergeGen_tiny.cfg", "tiny", None, None, None), ("MergeGen_small.cfg", "small", None, None, 2500),
                 ("MergeSim.cfg", "sim", "num=400", 9, 2500)]
